@@ -49,7 +49,11 @@ def oracle(ctx, budget=1, replay=None, hints=None):
         lines = ['G28', z('G1') + ' X5 Y5 E1 F3000', z('G1') + ' X15 Y15 E2', z('M117') + ' first text', z('M204') + ' S500', z('G4') + ' P10', z('M117') + ' second text',
                  z('M73') + ' P5', z('G1') + ' X30 Y30 E3', z('G2') + ' X30 Y50 I0 J10 E4', z('G3') + ' X30 Y30 I0 J-10 E5', z('G1') + ' X15 Y15', z('M204') + ' P7',
                  z('G1') + ' X50 Y50 E6']
-        lines = [('N%d %s' % (k, l) if rng.random() < 0.2 else l) + rng.choice(['\n', '\n', '\r\n']) for k, l in enumerate(lines)]
+        if rng.random() < 0.5:
+            # exclusion switched off and on again by the file itself, modes / units / position changed in between: tracked all the same
+            lines = lines[:2] + ['@ExcludeRegion off', z('G1') + ' X15 Y5 E1.2', rng.choice(['G91', 'G20', 'G91']), rng.choice(['G1 X0 Y0.2', 'G1 Y0.1 E0.01']), '@ExcludeRegion on',
+                                 rng.choice(['G1 Y0.25', 'G1 X0.1']), 'G90', 'G21', 'G1 X5 Y5'] + lines[2:]
+        lines = [('N%d %s' % (k, l) if rng.random() < 0.2 and not l.startswith('@') else l) + rng.choice(['\n', '\n', '\r\n']) for k, l in enumerate(lines)]
         return dict(prog=prog, pre=[], lines=lines)
     files = [SS.gen_file(ctx.rng) for _ in range(40 * budget)] + [designed_file(ctx.rng) for _ in range(12 * budget)]
     for f in files:
@@ -89,8 +93,8 @@ def oracle(ctx, budget=1, replay=None, hints=None):
     # the same comparison with the live side driven through the plugin object's queuing hooks (active print): whatever the hooks add in
     # front of the handlers must not make live and offline filtering differ
     import implplugin as IP
-    for _ in range(12 * budget):
-        f = SS.gen_file(ctx.rng)
+    for _i in range(16 * budget):
+        f = SS.gen_file(ctx.rng) if _i % 4 else designed_file(ctx.rng)
         prog = f['prog']
         pl = IP.new_plugin(g90InfluencesExtruder=prog['g90e'], enteringExcludedRegionGcode=('\n'.join(prog['enter']) if prog['enter'] else None),
                            exitingExcludedRegionGcode=('\n'.join(prog['exit']) if prog['exit'] else None),
